@@ -24,6 +24,9 @@ type followUp struct {
 	qDone  bool
 	qBuilt int
 	qWant  Tok
+	// the same after a backend fault (which is over by then): nobody's builder failed, so nothing is there to be refused with
+	qf     FEv
+	qfDone bool
 }
 
 type c04Obs struct {
@@ -59,6 +62,25 @@ func c04Post(h *fh) {
 			vsched.Join()
 
 			quiet[k] = followUp{q: e, qDone: true, qBuilt: h.nbuild[k] - nb, qWant: Tok{K: h.names[k], O: "b", N: nb - 1}}
+		}
+	}
+
+	if h.cfg.Script == "o" && h.cfg.Faults {
+		// The backend has recovered. No builder failed, so there is no failure to remember: a Get now (no time passing)
+		// gets a value - a cached one or one it builds.
+		h.cfg.Faults = false
+
+		for k := range h.names {
+			key := append([]byte(nil), h.keys[k]...)
+			h.ev(FEv{Kind: "get-start", Key: k, Name: "quiescent"})
+			t, isNil, _, err := h.front.Get(context.Background(), key, h.builder(k))
+			e := FEv{Kind: "get-end", Key: k, Tok: t, Nil: isNil, Err: err, Name: "quiescent"}
+			h.ev(e)
+			vsched.Join()
+
+			fu := quiet[k]
+			fu.qf, fu.qfDone = e, true
+			quiet[k] = fu
 		}
 	}
 
@@ -133,6 +155,11 @@ func c04Check(h *fh, r *vsched.Result) []Violation {
 		if fu.qDone && (fu.q.Err != nil || fu.q.Nil || fu.q.Tok != fu.qWant || fu.qBuilt != 0) {
 			vs = append(vs, Violation{Signature: fmt.Sprintf("C04 %s quiescent-not-last-build %s", front, mode),
 				Detail: fmt.Sprintf("with all Gets and builds finished (all builds succeeded, no time passed) a Get(%s) returned (%v nil=%v, %v) and built %d times; want the last completed build %v without building", key, fu.q.Tok, fu.q.Nil, fu.q.Err, fu.qBuilt, fu.qWant)})
+		}
+
+		if fu.qfDone && (fu.qf.Err != nil || fu.qf.Nil || fu.qf.Tok.K != key) {
+			vs = append(vs, Violation{Signature: fmt.Sprintf("C04 %s refused-after-backend-recovered %s", front, mode),
+				Detail: fmt.Sprintf("every builder invocation succeeded and the backend fault is over, yet a Get(%s) at quiescence returned (%v nil=%v, %v): the key cannot be built again", key, fu.qf.Tok, fu.qf.Nil, fu.qf.Err)})
 		}
 
 		if fu.built1 != 1 {
@@ -255,7 +282,7 @@ func init() {
 		Cells: c04Cells, Run: c04Run,
 		Rule: "cell = front-end x configuration x entry state x builder outcome x caller behaviour after return (overwrite the key buffer, reuse one buffer for the next Get as bench/failover.go does, cancel the context, nothing) x backend fault on/off; " +
 			"all schedules within the preemption bound incl. every position of the caller's buffer overwrite relative to the background build; termination is decided by the scheduler's deadlock detection, " +
-			"builder scripts: all succeed / all fail / all panic on the caller's goroutine (the caller recovers); key locks are counted at quiescence through a verif-tagged accessor; where all builds succeed a Get at quiescence (no time passing) must return the last completed build without building; and a black-box follow-up (forced expiry, two more Gets per key) must build exactly once and observe that build",
+			"builder scripts: all succeed / all fail / all panic on the caller's goroutine (the caller recovers); key locks are counted at quiescence through a verif-tagged accessor; where all builds succeed a Get at quiescence (no time passing) must return the last completed build without building (after a backend fault: must return a value of its key); and a black-box follow-up (forced expiry, two more Gets per key) must build exactly once and observe that build",
 		Assumptions: []string{
 			"deadlock = no runnable controlled thread while some are blocked; no wall-clock time-out is used as an oracle",
 			"the follow-up phase runs under the scheduler after all worker threads joined",
